@@ -84,9 +84,9 @@ func TestVerifDbAdmin(t *testing.T) {
 	w := bufio.NewWriterSize(f, 1<<20)
 	defer w.Flush()
 	r := rand.New(rand.NewSource(seed ^ 0x2545f491))
-	ncases, nops := 8, 120
+	ncases, nops := 12, 120
 	if tier == "thorough" {
-		ncases, nops = 80, 250
+		ncases, nops = 250, 250
 	}
 	bytesN := func(n int) []byte {
 		b := make([]byte, n)
